@@ -359,3 +359,47 @@ func TestC09Conc(t *testing.T) {
 }
 
 func sk2(cc ConcCase) bool { a, b := overlapNT(cc); return a || b }
+
+func init() {
+	vk.Register("C09", "steady", func(c SteadyCase, o *vk.Obs) string {
+		// schedule dependent: a replay repeats the workload
+		for i := 0; i < 20; i++ {
+			if msg := runSteady(c); msg != "" {
+				return msg
+			}
+		}
+		return ""
+	})
+}
+
+// TestC09Steady: replacing Puts against observers on a cache whose key set
+// never changes (see SteadyCase).
+func TestC09Steady(t *testing.T) {
+	h := vk.Start(t, "C09", "steady")
+	n := h.Pick(24, 400)
+	rng := h.RNG("steady")
+	tl := vk.NewTally()
+	for i := 0; i < n && !h.Failed(); i++ {
+		c := SteadyCase{
+			Keys:    []int{1, 1, 1, 2, 3, 8}[rng.Intn(6)],
+			Writers: 1 + rng.Intn(3),
+			Readers: 1 + rng.Intn(4),
+			Iters:   h.Pick(20000, 60000),
+			Procs:   []int{2, 4, 8, 16}[rng.Intn(4)],
+		}
+		b, _ := json.Marshal(c)
+		rf, _ := json.MarshalIndent(vk.ReplayFile{Property: "C09", Leg: "steady", Message: "workload that was executing when the race detector stopped the process", Case: b}, "", " ")
+		os.WriteFile(filepath.Join(h.OutDir, "current.json"), rf, 0o644)
+		if msg := runSteady(c); msg != "" {
+			p := h.Fail(c, msg)
+			t.Fatalf("VK-VIOLATION property=C09 leg=steady replay=%s\n%s", p, msg)
+		}
+		tl.Evals++
+		tl.NT++
+		tl.Classes[fmt.Sprintf("keys=%d", c.Keys)]++
+		if i%7 == 0 {
+			h.Sample(c, true)
+		}
+	}
+	h.MergeTally(tl)
+}
